@@ -415,13 +415,38 @@ theorem protect_no_bare_quote (s : List Char) (h : ∀ c ∈ s, c ≠ '\\') :
   have _ := h
   protect_no_bare_quote_aux s
 
-/-- flags are rendered as documented -/
+/-- flags are rendered as documented: EVERY job and scheduler has exactly one `color` and one `penwidth`
+    attribute; the colour is `red` when critical and `black` otherwise (it is never left out, so that a nested
+    scheduler cannot inherit the colour of the enclosing cluster), the pen width `2` when critical and `0.5`
+    otherwise; a key occurs at most once -/
 theorem style_critical (c : RenderCtx) (j : Nat) :
-    (c.t.critical j = true → ("color", "red") ∈ styleAttrs c j ∧ ("penwidth", "2") ∈ styleAttrs c j) ∧
-    (c.t.critical j = false → ("penwidth", "0.5") ∈ styleAttrs c j ∧ ∀ v, ("color", v) ∉ styleAttrs c j) := by
-  constructor
-  · intro h; simp [styleAttrs, h]
-  · intro h; simp [styleAttrs, h]
+    (∀ v, ("color", v) ∈ styleAttrs c j ↔ v = if c.t.critical j = true then "red" else "black") ∧
+    (∀ v, ("penwidth", v) ∈ styleAttrs c j ↔ v = if c.t.critical j = true then "2" else "0.5") ∧
+    ((styleAttrs c j).map Prod.fst).Nodup := by
+  cases h : c.t.critical j <;> simp [styleAttrs, h]
+
+/-- the same, one flag value at a time: `color` is always present, `red` iff critical and `black` iff not;
+    `penwidth` is `2` iff critical and `0.5` iff not -/
+theorem style_color (c : RenderCtx) (j : Nat) :
+    (∃ v, ("color", v) ∈ styleAttrs c j) ∧
+    (("color", "red") ∈ styleAttrs c j ↔ c.t.critical j = true) ∧
+    (("color", "black") ∈ styleAttrs c j ↔ c.t.critical j = false) ∧
+    (("penwidth", "2") ∈ styleAttrs c j ↔ c.t.critical j = true) ∧
+    (("penwidth", "0.5") ∈ styleAttrs c j ↔ c.t.critical j = false) := by
+  obtain ⟨hc, hp, _⟩ := style_critical c j
+  refine ⟨⟨_, (hc _).2 rfl⟩, ?_, ?_, ?_, ?_⟩
+  · rw [hc]; cases c.t.critical j <;> decide
+  · rw [hc]; cases c.t.critical j <;> decide
+  · rw [hp]; cases c.t.critical j <;> decide
+  · rw [hp]; cases c.t.critical j <;> decide
+
+/-- no colour is ever inherited from an enclosing cluster: the attribute list written for `.openCluster s`
+    (`renderItem` writes `renderAttrs (styleAttrs c s)` between the brackets of the cluster's `graph` statement)
+    always has a `color` key of its own, `red` when `s` is critical and `black` otherwise;
+    `cluster_color_parsed` (C20Parse) says the same of the parsed document -/
+theorem cluster_color_explicit (c : RenderCtx) (s : Nat) :
+    ∃ v, ("color", v) ∈ styleAttrs c s ∧ v = (if c.t.critical s = true then "red" else "black") := by
+  exact ⟨_, ((style_critical c s).1 _).2 rfl, rfl⟩
 
 theorem style_shape (c : RenderCtx) (j : Nat) :
     ("style", ",".intercalate (styleList c j)) ∈ styleAttrs c j ∧ ("shape", "box") ∈ styleAttrs c j ∧
